@@ -455,6 +455,7 @@ fn run_case(target: &str, seed: u64, len: usize) -> (String, String) {
                         let fl = p.floor() as usize;
                         let x = p - p.floor();
                         let w = if linear { at1(fl) + (at1(fl + 1) - at1(fl)) * x } else { at1(fl) };
+                        rec!(conv.is_exhausted(), ca.get() >= data.len() && (p - ((ca.get() - prime) as f64)) >= 1.0);
                         rec!(conv.next()[0], w);
                         rec!(ca.get(), prime + fl);
                         p += rs[k];
@@ -661,8 +662,19 @@ fn run_case(target: &str, seed: u64, len: usize) -> (String, String) {
                     for _ in 0..cnt { rec!(outs2[i].as_mut().unwrap().next(), at(&data, pos2[i])); pos2[i] += 1; if pos2[i] > pulled2 { pulled2 = pos2[i]; } }
                 }
                 let victim = match variant { 0 => n_out - 1, 1 => n_out / 2, _ => 0 };
+                // (the Bus handle may already be gone while its outputs live on: n_out = 3 with one drop leaves two outputs)
+                let bus_keep = if seed % 3 == 0 { drop(bus2); None } else { Some(bus2) };
                 outs2[victim] = None;
-                for round in 0..3 {
+                for round in 0..4 {
+                    // drop further outputs on the way (the current leader first, then the current laggard): whoever remains
+                    // still receives exactly the frames it is owed
+                    if round >= 1 {
+                        let live: Vec<usize> = (0..n_out).filter(|&i| outs2[i].is_some()).collect();
+                        if live.len() >= 2 {
+                            let pick = if round % 2 == 1 { *live.iter().max_by_key(|&&i| pos2[i]).unwrap() } else { *live.iter().min_by_key(|&&i| pos2[i]).unwrap() };
+                            outs2[pick] = None;
+                        }
+                    }
                     for i in 0..n_out {
                         if let Some(o) = outs2[i].as_mut() {
                             rec!(o.pending_frames(), pulled2 - pos2[i]);
